@@ -58,6 +58,7 @@ type Solver struct {
 	FallbackQueries int
 	Restarts int
 	IntQueries int
+	IntAlt   bool // integer mode: cvc5 first, then z3, then z3-new (param int_alt)
 	OneShot  bool
 	log     io.Writer
 	timeout int // ms
